@@ -304,33 +304,43 @@ Definition run_test (m : xmode) (cap : nat) (s : suiteinfo) (t : test) (p : psta
   | InProcess => run_test_inproc cap s t p
   end.
 
+(* the two passes of run_every_test() over a suite's entries, with the recursive call as a
+   parameter (so that lemmas can be stated about them) *)
+Definition subs_fix (s : suiteinfo) (sel : node -> bool) (rec : node -> pstate -> outcome)
+  : list node -> pstate -> outcome :=
+  fix subs (l : list node) (p : pstate) : outcome :=
+    match l with
+    | [] => Done p
+    | n' :: l' =>
+        match n' with
+        | Sn _ _ =>
+            if sel n' then
+              bind (rec n' (if s_has_setup s then emit (EFixture (sid s) false) p else p))
+                   (fun p' => subs l' (if s_has_teardown s then emit (EFixture (sid s) true) p' else p'))
+            else subs l' p
+        | Tn _ => subs l' p
+        end
+    end.
+
+Definition tests_fix (runt : test -> pstate -> outcome) : list node -> pstate -> outcome :=
+  fix tests (l : list node) (p : pstate) : outcome :=
+    match l with
+    | [] => Done p
+    | n' :: l' =>
+        match n' with
+        | Tn t => bind (runt t p) (fun p' => tests l' p')
+        | Sn _ _ => tests l' p
+        end
+    end.
+
 (* run_every_test(): sub-suites first (bracketed by the suite's fixtures, in the parent),
    counters reset, then the suite's own tests *)
 Fixpoint run_node (rk : rkind) (m : xmode) (cap : nat) (n : node) (p : pstate) : outcome :=
   match n with
   | Tn t => run_test m cap nosuite t p     (* a root is always a suite; not reachable *)
   | Sn s ch =>
-      let p1 := start_suite rk (sid s) p in
-      let subs := (fix subs (l : list node) (p : pstate) : outcome :=
-                     match l with
-                     | [] => Done p
-                     | n' :: l' =>
-                         match n' with
-                         | Sn _ _ =>
-                             bind (run_node rk m cap n'
-                                     (if s_has_setup s then emit (EFixture (sid s) false) p else p))
-                                  (fun p' => subs l' (if s_has_teardown s then emit (EFixture (sid s) true) p' else p'))
-                         | Tn _ => subs l' p
-                         end
-                     end) in
-      let tests := (fix tests (l : list node) (p : pstate) : outcome :=
-                     match l with
-                     | [] => Done p
-                     | Tn t :: l' => bind (run_test m cap s t p) (fun p' => tests l' p')
-                     | Sn _ _ :: l' => tests l' p
-                     end) in
-      bind (subs ch p1) (fun p2 =>
-      bind (tests ch (set_c czero p2)) (fun p3 =>
+      bind (subs_fix s (fun _ => true) (run_node rk m cap) ch (start_suite rk (sid s) p)) (fun p2 =>
+      bind (tests_fix (run_test m cap s) ch (set_c czero p2)) (fun p3 =>
       Done (finish_suite rk cap (sid s) p3)))
   end.
 
@@ -370,31 +380,9 @@ Fixpoint run_named (rk : rkind) (cap : nat) (name : nat) (n : node) (p : pstate)
   match n with
   | Tn t => if Nat.eqb (tid t) name then run_test_inproc cap nosuite t p else Done p
   | Sn s ch =>
-      let p1 := start_suite rk (sid s) p in
-      let subs := (fix subs (l : list node) (p : pstate) : outcome :=
-                     match l with
-                     | [] => Done p
-                     | n' :: l' =>
-                         match n' with
-                         | Sn _ _ =>
-                             if has_test name n' then
-                               bind (run_named rk cap name n'
-                                       (if s_has_setup s then emit (EFixture (sid s) false) p else p))
-                                    (fun p' => subs l' (if s_has_teardown s then emit (EFixture (sid s) true) p' else p'))
-                             else subs l' p
-                         | Tn _ => subs l' p
-                         end
-                     end) in
-      let tests := (fix tests (l : list node) (p : pstate) : outcome :=
-                     match l with
-                     | [] => Done p
-                     | Tn t :: l' =>
-                         if Nat.eqb (tid t) name then bind (run_test_inproc cap s t p) (fun p' => tests l' p')
-                         else tests l' p
-                     | Sn _ _ :: l' => tests l' p
-                     end) in
-      bind (subs ch p1) (fun p2 =>
-      bind (tests ch (set_c czero p2)) (fun p3 =>
+      bind (subs_fix s (has_test name) (run_named rk cap name) ch (start_suite rk (sid s) p)) (fun p2 =>
+      bind (tests_fix (fun t p' => if Nat.eqb (tid t) name then run_test_inproc cap s t p' else Done p')
+                      ch (set_c czero p2)) (fun p3 =>
       Done (finish_suite rk cap (sid s) p3)))
   end.
 
@@ -431,7 +419,7 @@ Definition own (s : suiteinfo) (t : test) : cnt :=
         let k := count_msgs m in
         let sk := has_skip m in
         mkcnt (passes k) (failures k) (if sk then 1 else 0)
-              (match d with Some _ => 1 | None => 0 end)
+              (exceptions k + match d with Some _ => 1 | None => 0 end)
     end.
 
 (* every test of the tree with the suite that owns it *)
